@@ -586,6 +586,23 @@ save_expansion(Expansion &expansion, const string &exp, const vector_string &par
       ++p;
       last = p;
 
+    } else if (exp[p] == '"' ||
+               (exp[p] == '\'' && (p == 0 || !isalnum(exp[p - 1])))) {
+      // A string or character literal.  Skip over it as a whole: its contents
+      // are not subject to parameter substitution, and whitespace inside it
+      // must be preserved.
+      char quote = exp[p];
+      ++p;
+      while (p < exp.size() && exp[p] != quote) {
+        if (exp[p] == '\\' && p + 1 < exp.size()) {
+          ++p;
+        }
+        ++p;
+      }
+      if (p < exp.size()) {
+        ++p;
+      }
+
     } else {
       ++p;
     }
